@@ -585,13 +585,11 @@ class Task(BaseModel, ABC):
         return self.objective_function(solution)
 
     def transform_solution(self, x: list[float | int]) -> dict[str, Any]:
-        if len(x) == 1:
-            return {self.variables[0].name: self.variables[0].decode(x[0])}
         counter = 0
         solution = {}
         for v in self.variables:
             temp = x[counter:(counter + v.size())]
-            solution[v.name] = v.decode(temp if len(temp) > 1 else temp[0])
+            solution[v.name] = v.decode(temp if v.has_children() else temp[0])
             counter += v.size()
         return solution
 
